@@ -109,16 +109,17 @@ def layout(nsub, simple_per_subnet, nforeign, two_hop):
 
 @meta(bounds="nsub IP subnets joined by vlan.IPRouter, one BBMD per subnet with a full distribution table (two-hop /32 entries or "
              "one-hop /24 directed broadcasts per instance, each BBMD lists itself), simple nodes per subnet and foreign devices "
-             "registered with BBMD 1 (TTL 30, just acknowledged) as given by the instance; originator symbolic over every "
+             "registered round-robin from BBMD `register_at` on (TTL 30, just acknowledged) as given by the instance; originator symbolic over every "
              "node; payload 2 symbolic octets",
       outside="partial distribution tables (Annex J promises full coverage only when every BBMD lists every other), more "
               "subnets / nodes than instantiated",
       stubs=STUBS)
-def bip_scn(d, nsub, simple, nforeign, two_hop):
+def bip_scn(d, nsub, simple, nforeign, two_hop, register_at=0):
     w = World()
     nets, nodes, bbmds, foreign = layout(nsub, simple, nforeign, two_hop)
-    for f in foreign:
-        f.bip.register(bbmds[0].station, 30)
+    for i, f in enumerate(foreign):
+        # foreign device i registers with BBMD (register_at + i) mod #BBMDs
+        f.bip.register(bbmds[(register_at + i) % len(bbmds)].station, 30)
     w.run(duration=1)
     for f in foreign:
         if f.bip.registrationStatus != 0:
@@ -165,11 +166,11 @@ def fdt_listing(w, reader, bbmd):
               "own); sub-second instants",
       stubs=STUBS,
       assumes=["grace = 30 s (J.5.2.3) is the upper bound the statement allows; 'at least the time-to-live' is absolute"])
-def foreign_scn(d, ttl_max, renew, action):
+def foreign_scn(d, ttl_max, renew, action, ttl_min=1, wait_from=0):
     w = World()
     nets, nodes, bbmds, foreign = layout(1, 1, 1, True)
     bb, simple, f = bbmds[0], nodes[1], foreign[0]
-    ttl = d.int(1, ttl_max, 'ttl')
+    ttl = d.int(ttl_min, ttl_max, 'ttl')
     f.bip.register(bb.station, ttl)
     w.settle()
     if f.bip.registrationStatus != 0:
@@ -177,7 +178,7 @@ def foreign_scn(d, ttl_max, renew, action):
     t_ack = w.clock
     if not renew:
         f.bip.suspend_task()            # no renewal: the registration must run out
-    wait = d.int(0, ttl + GRACE + 6, 'wait')
+    wait = d.int(wait_from, ttl + GRACE + 6, 'wait')
     if action == "unregister":
         at = d.int(0, ttl, 'unregister_at')
         d.assume(at <= wait)
@@ -247,17 +248,27 @@ def instances(tier):
     if q:
         out.append(Inst(bip_scn, dict(nsub=2, simple=1, nforeign=1, two_hop=True), budget=80))
         out.append(Inst(bip_scn, dict(nsub=2, simple=1, nforeign=0, two_hop=False), budget=80))
+        # a foreign device at the BBMD on the FAR side of a one-hop (directed broadcast) distribution
+        out.append(Inst(bip_scn, dict(nsub=2, simple=0, nforeign=2, two_hop=False, register_at=1), budget=80))
         out.append(Inst(foreign_scn, dict(ttl_max=2, renew=False, action="none"), budget=80, path_timeout=90))
         out.append(Inst(foreign_scn, dict(ttl_max=1, renew=True, action="none"), budget=80, path_timeout=90))
+        # a time-to-live that does not divide the grace period: the device's own expiry tracking (TTL + 30) falls
+        # between two renewals
+        out.append(Inst(foreign_scn, dict(ttl_min=4, ttl_max=4, renew=True, action="none", wait_from=28), budget=80,
+                        path_timeout=90, label="renew,ttl=4,late"))
         out.append(Inst(foreign_scn, dict(ttl_max=1, renew=False, action="unregister"), budget=80, path_timeout=90))
         out.append(Inst(foreign_scn, dict(ttl_max=1, renew=False, action="delete"), budget=80, path_timeout=90))
     else:
         for nsub in (1, 2, 3):
             for two_hop in (True, False):
-                out.append(Inst(bip_scn, dict(nsub=nsub, simple=2, nforeign=2, two_hop=two_hop), budget=600, path_timeout=120))
+                for reg in range(nsub):
+                    out.append(Inst(bip_scn, dict(nsub=nsub, simple=2, nforeign=2, two_hop=two_hop, register_at=reg),
+                                    budget=600, path_timeout=120))
         out.append(Inst(bip_scn, dict(nsub=3, simple=1, nforeign=3, two_hop=True), budget=600, path_timeout=120))
         for renew in (False, True):
             out.append(Inst(foreign_scn, dict(ttl_max=8, renew=renew, action="none"), budget=900, path_timeout=120))
+        out.append(Inst(foreign_scn, dict(ttl_min=7, ttl_max=7, renew=True, action="none", wait_from=30), budget=600,
+                        path_timeout=120, label="renew,ttl=7,late"))
         out.append(Inst(foreign_scn, dict(ttl_max=4, renew=False, action="unregister"), budget=900, path_timeout=120))
         out.append(Inst(foreign_scn, dict(ttl_max=4, renew=True, action="unregister"), budget=900, path_timeout=120))
         out.append(Inst(foreign_scn, dict(ttl_max=4, renew=False, action="delete"), budget=900, path_timeout=120))
